@@ -98,8 +98,45 @@ def run(ctx):
                       "promoted ids are the drained batch", "ids handed to safe_batch_promote do not derive from drain_batch", loc(mb, bi))
 
     # ---------------------------------------------------------------- C26-b no second change while one is in flight
-    prom = [x for x in all_agg_sites(F, "membership_change::Change", None, crates=("d_engine_core", "d_engine_server")) if x[3]["rv"]["v"] in ("Promote", "BatchPromote", "RemoveNode")]
-    ctx.floor("C26-b", len(prom), 1, "constructions of a voter-changing Change (Promote/BatchPromote/RemoveNode)")
+    # EVERY construction of a membership Change is classified (fail closed on an unknown variant):
+    #   AddNode            adds a LEARNER (C27-a): the voter set is untouched
+    #   BatchRemove        exempt only where the removed ids are the stale front of the pending-promotion queue, i.e. learners that
+    #                      were taken OUT of the queue and therefore are in no in-flight promotion; anywhere else it may remove voters
+    #   everything else    changes the voter set: needs in-flight evidence
+    all_changes = [x for x in all_agg_sites(F, "membership_change::Change", None, crates=("d_engine_core", "d_engine_server")) if not is_test_body_c26(x[0])]
+    ctx.floor("C26-b", len(all_changes), 3, "constructions of a membership Change (AddNode, BatchPromote, BatchRemove)")
+    prom = []
+    for x in all_changes:
+        (b, bi, si, st) = x
+        v = st["rv"]["v"]
+        root = F.root_of[b.id]
+        if v == "AddNode":
+            continue
+        if v == "BatchRemove":
+            ids = XSlice(F, b, through_calls=True).operand(st["rv"]["ops"][0]) if st["rv"].get("ops") else None
+            from_queue = bool(ids) and ids.has_field("LeaderState", "pending_promotions")
+            if ids is not None and not from_queue:
+                for (croot, cbid, cbi, ct) in F.callers_of(lambda k: k == root):
+                    cb = F.bodies[cbid]
+                    for a in ct["args"][1:]:
+                        xs = XSlice(F, cb, through_calls=True).operand(a)
+                        if xs.has_field("LeaderState", "pending_promotions"):
+                            from_queue = True
+                        # ids collected into a local Vec first: `stale_ids.push(entry.node_id)` with entry taken from the queue
+                        for (pbi, pt) in calls_matching(cb, r"Vec::push$"):
+                            recv = XSlice(F, cb).operand(pt["args"][0])
+                            val = XSlice(F, cb, through_calls=True).operand(pt["args"][1])
+                            if (recv.seen & xs.seen) and val.has_field("LeaderState", "pending_promotions"):
+                                from_queue = True
+            if from_queue:
+                ctx.ok("C26-b", "%s#Change::BatchRemove#learners-from-stale-queue" % fkey(root),
+                       "removes only ids popped from the pending-promotion queue (learners in no in-flight promotion): not a voter-set change", loc(b, bi))
+                continue
+        if v not in ("Promote", "BatchPromote", "RemoveNode", "BatchRemove"):
+            ctx.bad("C26-b", "%s#Change::%s#unclassified" % (fkey(root), v), "UNRECOGNISED-FORM: a membership Change variant the rule has no classification for", loc(b, bi))
+            continue
+        prom.append(x)
+    ctx.floor("C26-b", len(prom), 1, "constructions of a voter-changing Change (Promote/BatchPromote/RemoveNode/BatchRemove of non-queue ids)")
     for (b, bi, si, st) in prom:
         root = F.root_of[b.id]
         evidence = []
@@ -177,6 +214,10 @@ _run_abc26 = run
 def run(ctx):
     _run_abc26(ctx)
     leader_cache_refreshed(ctx)
+
+
+def is_test_body_c26(b):
+    return bool(re.search(r"(_test|/tests?/|test_utils|mock)", b.file or "")) or "::tests::" in b.id
 
 
 def leader_cache_refreshed(ctx):
